@@ -57,7 +57,77 @@ fn res(path: &str, range: E) -> Stmt {
 }
 
 /// Hand-shaped recursion scenarios with random parameters, as GenAST so that the reference applies.
+/// Two imported modules with the same base name and the same token shape, each with a recursive
+/// declaration (and a rec) at the same position: the two recursion points must stay different components.
+fn twin_modules(rng: &mut Rng) -> Program {
+    let prims = [PrimK::Num, PrimK::Str, PrimK::Bool, PrimK::Int];
+    let mut decls = Vec::new();
+    let mut modules = vec![Module {
+        file: "main.oal".into(),
+        stmts: vec![],
+    }];
+    let dirs = [("users/types.oal", "u"), ("groups/types.oal", "g")];
+    let rec_id = |m: usize| m;
+    for (mi, (file, _)) in dirs.iter().enumerate() {
+        let m = mi + 1;
+        let base = decls.len();
+        // let tree = { 'val <prim>, 'kids [tree] };  let list = rec x { 'head <prim>, 'tail x };
+        decls.push(Decl {
+            module: m,
+            name: "tree".into(),
+            params: vec![],
+            anns: vec![],
+            rhs: obj(vec![prop("val", E::Prim(prims[(mi + rng.below(2)) % 4])), prop("kids", E::Arr(Box::new(E::var("tree", Target::Decl(base)))))]),
+            ty: Ty::Obj,
+        });
+        decls.push(Decl {
+            module: m,
+            name: "list".into(),
+            params: vec![],
+            anns: vec![],
+            rhs: E::Rec {
+                binder: "x".into(),
+                id: rec_id(mi),
+                body: Box::new(obj(vec![prop("head", E::Prim(prims[(mi * 2 + 1) % 4])), prop("tail", E::var("x", Target::Rec(rec_id(mi))))])),
+            },
+            ty: Ty::Obj,
+        });
+        modules.push(Module {
+            file: (*file).into(),
+            stmts: vec![Stmt::Let { id: base }, Stmt::Let { id: base + 1 }],
+        });
+    }
+    let q = |m: usize, d: usize, name: &str| E::Var {
+        qual: Some(dirs[m - 1].1.to_owned()),
+        name: name.to_owned(),
+        target: Target::Decl(d),
+    };
+    let mut stmts = vec![
+        Stmt::Use {
+            path: "users/types.oal".into(),
+            target: 1,
+            qual: Some("u".into()),
+        },
+        Stmt::Use {
+            path: "groups/types.oal".into(),
+            target: 2,
+            qual: Some("g".into()),
+        },
+    ];
+    stmts.push(res("users", obj(vec![prop("t", q(1, 0, "tree")), prop("l", q(1, 1, "list"))])));
+    stmts.push(res("groups", obj(vec![prop("t", q(2, 2, "tree")), prop("l", q(2, 3, "list"))])));
+    modules[0].stmts = stmts;
+    Program {
+        modules,
+        decls,
+        n_recs: 2,
+    }
+}
+
 fn scenario(rng: &mut Rng) -> (Program, &'static str) {
+    if rng.chance(1, 6) {
+        return (twin_modules(rng), "twin-modules");
+    }
     match rng.below(5) {
         0 => {
             // rec inside a function applied k times with equal and different arguments
